@@ -1852,3 +1852,7 @@ mod tests {
         assert_eq!(serialized_tx.len(), 0);
     }
 }
+
+#[cfg(all(test, saito_verif))]
+#[path = "/verif/replay/in_crate/transaction.rs"]
+mod verif_replay;
